@@ -614,6 +614,13 @@ def brute_prox_1d(f, x, lo_zero=False, n=20001):
         nxt = [np.linspace(max(lo, c - width), min(hi, c + width), 2001) for c in cand[order]]
         cand = np.concatenate(nxt)
         width = width / 1000.0
+    # prefer the exact kink / the exact input when they are (numerically) as good: a grid point that is 1e-18
+    # away from 0 must not be reported instead of 0
+    for special in (0.0, float(x)):
+        if lo <= special <= hi:
+            vs = float(f(np.array([special]))[0])
+            if vs <= best_v + 1e-15 * (1 + abs(best_v)):
+                best_u, best_v = special, min(vs, best_v)
     return best_u, best_v
 
 
